@@ -246,7 +246,10 @@ func runHist(op map[string]any) (any, error) {
 			byID[id] = doc
 			err = p.MergeDocument(doc)
 			if err != nil {
-				dead = true
+				// "continue": the caller goes on using the parser after a reported merge error
+				if c, _ := op["continue"].(bool); !c {
+					dead = true
+				}
 				res = append(res, errObj(err))
 			} else {
 				res = append(res, map[string]any{"ok": true})
@@ -402,6 +405,32 @@ func runFormat(op map[string]any) (any, error) {
 			return errObj(err), nil
 		}
 		return map[string]any{"bytes": base64.StdEncoding.EncodeToString(b)}, nil
+	}
+	if fs, ok := op["marshalseq"].([]any); ok {
+		// the SAME value tree handed to several writers in sequence (Format.MarshalStream must not modify its argument)
+		docs := []any{}
+		for _, v := range op["docs"].([]any) {
+			d, err := fromWire(v)
+			if err != nil {
+				return nil, err
+			}
+			docs = append(docs, d)
+		}
+		outs := []any{}
+		for _, fn := range fs {
+			ff, err := bkl.GetFormat(fn.(string))
+			if err != nil {
+				outs = append(outs, errObj(err))
+				continue
+			}
+			b, err := ff.MarshalStream(docs)
+			if err != nil {
+				outs = append(outs, errObj(err))
+				continue
+			}
+			outs = append(outs, map[string]any{"bytes": base64.StdEncoding.EncodeToString(b)})
+		}
+		return map[string]any{"seq": outs}, nil
 	}
 	if s, ok := op["decode"].(string); ok {
 		raw, err := base64.StdEncoding.DecodeString(s)
